@@ -7,7 +7,7 @@ CLIENT_NOTE = "Trusted: the scripted broker and its model of which ack answers w
 CLAIMED = {
  # id: (engine, level, design_ref, text, note, technique)
  "C01": ("routersim", "exploration", "DESIGN.md 5.1, 6/C01",
-   "Seeded search over client histories x router/link schedules x router configurations with the real Router::run_inner; every Forward drained by a client is attributed (subset construction over possible assignments) to the next expected element of one of its subscriptions in a reference model fed with the observed acceptance order; completeness checked at forced quiescence points; retention gaps excused only against the broker's own log head. Sampling, not proof.",
+   "Seeded search over client histories x router/link schedules x router configurations with the real Router::run_inner; every Forward drained by a client is attributed (subset construction over possible assignments) to the next expected element of one of its subscriptions in a reference model fed with the observed acceptance order; completeness checked at forced quiescence points; retention gaps excused only against the broker's own log head. In small-retention runs the router also carries a custom_segment override for a/# and every snapshot judges the number of segments each literal filter log holds: at most the configured number, nothing discarded below it (C13's retention clause seen at the router, reported under the running property). Sampling, not proof.",
    ROUTER_NOTE, "deterministic simulation with seeded scheduler + reference model"),
  "C03": ("routersim", "exploration", "DESIGN.md 5.1, 6/C03",
    "Seeded search over histories with takeover, stale events, persistent sessions, shared groups, unknown-filter/multi-filter unsubscribes, wills; every router step under catch_unwind, no step may return an error, well-behaved connections may not be closed; a run that does not return (router blocked or spinning inside a step) is reported by a monitor thread as halt:run_does_not_return with a seed-only replay file. Sampling, not proof.",
